@@ -241,9 +241,14 @@ def placed_amounts(req):
         c = req['p'].split('/')[-1]
         a = b['allocations']
         if isinstance(a, list):
+            # list form (< 1.12): a provider named twice counts once, with
+            # its last entry
+            last = {}
             for e in a:
-                for rc, amt in e['resources'].items():
-                    out.append((c, e['resource_provider']['uuid'], rc, amt))
+                last[e['resource_provider']['uuid']] = e['resources']
+            for rp, res in last.items():
+                for rc, amt in res.items():
+                    out.append((c, rp, rc, amt))
         else:
             for rp, x in a.items():
                 for rc, amt in x['resources'].items():
@@ -449,6 +454,12 @@ def c10_oracle(m, req, resp, before, after):
                 fail('returned-generation-differs-from-read',
                      {'returned': g, 'read': r.json and
                       r.json.get('generation')})
+            r = m.svc.request('GET', '/resource_providers?uuid=' + u,
+                              version='1.39')
+            lst = (r.json or {}).get('resource_providers') or [{}]
+            if r.status != 200 or lst[0].get('generation') != g:
+                fail('returned-generation-differs-from-listing',
+                     {'returned': g, 'listed': lst[0].get('generation')})
 
 
 def c10_path(req, resp, before, after):
